@@ -150,30 +150,30 @@ func (a *agg) evidence(id, tier string, seed int64, cfg propCfg, wall, buildS, e
 		"rule": "one evaluation = one simulated run: a scenario (configuration + actor scripts + fault placement) drawn from H(VERIF_SEED, property, run index), " +
 			"executed under a seeded schedule policy. A run is non-trivial when at some scheduling point at least two tasks were ready (the scheduler had a real choice) " +
 			"or a fault fired; distinct = distinct interleaving signatures (FNV hash of the sequence of (task role, site, operation, channel) of all visible operations and select defaults) among the non-trivial runs.",
-		"samples":                      samples,
-		"nontrivial_runs":              a.nontrivial,
-		"skipped_scenarios":            a.skipped,
-		"runs_abandoned_at_horizon":    a.abandoned,
-		"scheduling_steps":             a.steps,
-		"scheduling_decisions":         a.choices,
-		"simulated_seconds":            float64(a.simNs) / 1e9,
-		"runs_per_hour":                perHour,
-		"seeds_per_hour":               perHour,
-		"faults_fired":                 a.faults,
-		"fault_kinds_not_applicable":   notApplicableFaults,
-		"rare_condition_probes":        a.probes,
-		"engines":                      a.engines,
-		"scenario_classes":             a.classes,
-		"schedule_policies":            a.policies,
-		"library_sync_sites":           libSites,
-		"race_detector_reports":        a.raceReports,
-		"race_build":                   cfg.Race,
-		"workers":                      workers,
-		"build_s":                      buildS,
-		"explore_s":                    exploreS,
-		"known_finding_hits":           a.knownHits,
-		"real_components":              []string{"all cqos library code (rewritten only at synchronisation points by simgen)", "github.com/akramarenkov/breaker", "github.com/akramarenkov/safe", "Go channels, select wake-ups, timers/tickers, context, sync.WaitGroup (Go 1.26.8 runtime)"},
-		"simulated_components":         []string{"goroutine scheduling (baton scheduler, seeded)", "choice among ready select cases (seeded polling order)", "clock (testing/synctest fake clock)", "producers, handlers, consumers, controllers (scripted environment actors)", "misbehaving divider callback"},
+		"samples":                    samples,
+		"nontrivial_runs":            a.nontrivial,
+		"skipped_scenarios":          a.skipped,
+		"runs_abandoned_at_horizon":  a.abandoned,
+		"scheduling_steps":           a.steps,
+		"scheduling_decisions":       a.choices,
+		"simulated_seconds":          float64(a.simNs) / 1e9,
+		"runs_per_hour":              perHour,
+		"seeds_per_hour":             perHour,
+		"faults_fired":               a.faults,
+		"fault_kinds_not_applicable": notApplicableFaults,
+		"rare_condition_probes":      a.probes,
+		"engines":                    a.engines,
+		"scenario_classes":           a.classes,
+		"schedule_policies":          a.policies,
+		"library_sync_sites":         libSites,
+		"race_detector_reports":      a.raceReports,
+		"race_build":                 cfg.Race,
+		"workers":                    workers,
+		"build_s":                    buildS,
+		"explore_s":                  exploreS,
+		"known_finding_hits":         a.knownHits,
+		"real_components":            []string{"all cqos library code (rewritten only at synchronisation points by simgen)", "github.com/akramarenkov/breaker", "github.com/akramarenkov/safe", "Go channels, select wake-ups, timers/tickers, context, sync.WaitGroup (Go 1.26.8 runtime)"},
+		"simulated_components":       []string{"goroutine scheduling (baton scheduler, seeded)", "choice among ready select cases (seeded polling order)", "clock (testing/synctest fake clock)", "producers, handlers, consumers, controllers (scripted environment actors)", "misbehaving divider callback"},
 	}
 
 	return map[string]any{
